@@ -156,8 +156,13 @@ impl UserLang {
                 classes.push((c, name));
             }
         }
+        // one language in four has a stemmer: any of the eighteen Snowball algorithms the library's dependency offers (a stemmer
+        // may lengthen a word - German 'ß' -> 'ss', Turkish 'aad' -> 'aadı' - or leave nothing of it - Turkish 'leri')
+        use rust_stemmers::Algorithm as A;
         let stemmer = if rng.chance(1, 4) {
-            let (name, algo) = *rng.pick(&[("english", rust_stemmers::Algorithm::English), ("german", rust_stemmers::Algorithm::German), ("dutch", rust_stemmers::Algorithm::Dutch)]);
+            let (name, algo) = *rng.pick(&[("english", A::English), ("german", A::German), ("dutch", A::Dutch), ("turkish", A::Turkish), ("turkish", A::Turkish), ("arabic", A::Arabic), ("danish", A::Danish),
+                ("finnish", A::Finnish), ("french", A::French), ("greek", A::Greek), ("hungarian", A::Hungarian), ("italian", A::Italian), ("norwegian", A::Norwegian), ("portuguese", A::Portuguese),
+                ("romanian", A::Romanian), ("russian", A::Russian), ("spanish", A::Spanish), ("swedish", A::Swedish), ("tamil", A::Tamil)]);
             lang.set_stemmer(Some(rust_stemmers::Stemmer::create(algo)));
             Some(name)
         } else {
@@ -170,6 +175,12 @@ impl UserLang {
                 if !piece.is_empty() && !alphabet.contains(&piece.to_string()) {
                     alphabet.push(piece.to_string());
                 }
+            }
+        }
+        if stemmer.is_some() {
+            // words and endings that stemmers act on (whole words made of suffixes only, words a stemmer lengthens)
+            for bait in ["leri", "siniz", "sunuz", "ler", "lar", "aad", "ing", "ed", "heit", "ungen", "wei\u{df}", "ation", "mente", "\u{438}\u{44f}\u{43c}\u{438}", "s", "en"].iter() {
+                alphabet.push(bait.to_string());
             }
         }
         UserLang { lang, compose, reduce, stemmer, classes, alphabet }
